@@ -97,9 +97,33 @@ def gen_bigint_cases(rnd, n):
     return cases
 
 
+RICH = [' 12 ', '1_000', '+5', '2.5e1', '1e2', '.5', '7.', '-0.25', '1_0.5', '\t3\n', '-1_6', '25E-2', '0_0', '007', '1.e1', '+.75', '\xa08', '16\u2003']
+RICH_BAD = ['1__0', 'x', '', '0x10', '1_', '_1', '1e', '\x1c1', '1 2', '--1', '1,5']
+
+
+def gen_rich_numeric_cases(rnd, n):
+    """numeric strings in the FULL grammar of Python's int() / float() (Model/Number.lean: underscores, signs, blanks incl. non-ASCII ones, exponents,
+    bare points) with exactly representable values, now and then one that is NOT a number (the aggregate must fail at that record). Python only:
+    rbql.js reads numbers with Number(), whose grammar differs (tied on its own in number_corr)."""
+    cases = []
+    for _ in range(n):
+        grouped = rnd.random() < 0.5
+        nrows = rnd.randint(1, 6)
+        vals = [rnd.choice(RICH) for _r in range(nrows)]
+        if rnd.random() < 0.2:
+            vals[rnd.randrange(nrows)] = rnd.choice(RICH_BAD)
+        A = [[rnd.choice(['x', 'y']), v] for v in vals]
+        kinds = ['min', 'max', 'sum', 'avg', 'variance', 'median', 'count', 'any_value', 'array_agg']
+        q = {'items': ([{'e': ['a', 0]}] if grouped else []) + [{'agg': rnd.choice(kinds), 'e': ['a', 1]} for _i in range(rnd.randint(1, 3))]}
+        if grouped:
+            q['group'] = [['a', 0]]
+        cases.append({'q': q, 'A': A, 'B': None})
+    return cases
+
+
 def run(res, tier, seed):
     res.rule = RULE
-    res.assumptions = ['numeric arguments are homogeneous numeric strings (grammar -?d+(.d+)?) or numbers', 'group keys of one type',
+    res.assumptions = ['numeric arguments are homogeneous: numeric strings (Python: the int()/float() grammar of Model/Number.lean, tied string by string; rbql.js legs: the common plain grammar -?d+(.d+)?) or numbers; inf / nan and non-ASCII digits excluded', 'group keys of one type',
                        'IEEE rounding is outside the model: values are dyadic decimals, results recovered exactly with limit_denominator(10**6)']
     rnd = random.Random(seed * 4256233 + 3)
     cases = gen_cases(rnd, 15000 if tier == 'quick' else 150000)
@@ -117,6 +141,11 @@ def run(res, tier, seed):
     big = gen_bigint_cases(random.Random(seed * 17 + 3), 400 if tier == 'quick' else 6000)
     res.count('bigint_cases(beyond 2**53, Python only)', len(big))
     engine_corr.run_cases(res, 'C03', big, 'py', rnd=random.Random(seed + 8))
+    rich = gen_rich_numeric_cases(random.Random(seed * 19 + 3), 1500 if tier == 'quick' else 20000)
+    res.count('rich_numeric_string_cases(full int()/float() grammar, Python only)', len(rich))
+    engine_corr.run_cases(res, 'C03', rich, 'py', rnd=random.Random(seed + 9))
+    import number_corr
+    number_corr.run_leg(res, tier, seed, 'C03')
     builtin_dispatch_check(res)
 
 
